@@ -235,6 +235,9 @@ func C12(c *fw.Ctx) {
 					if hist[0]%c.NShards != c.Shard {
 						continue
 					}
+					if c.Expired() {
+						continue
+					}
 				}
 				prog := parenAll(objProgram(hist, ops))
 				src := model.Render(prog)
